@@ -274,7 +274,7 @@ func c16Judge(w *rqWorld, res *vsched.Result, updaters []string, requests []stri
 				}
 			}
 			if !overl {
-				bad = append(bad, vScnBad{"retry-later-without-overlapping-update", fmt.Sprintf("%s was answered JUKEBOX although no update overlapped it", rq)})
+				bad = append(bad, vScnBad{"retry-later-without-overlapping-update", fmt.Sprintf("%s was answered JUKEBOX although no update overlapped it\n  trace: %s", rq, w.trace())})
 			}
 		}
 		if rp.err != "" && !strings.Contains(rp.err, "timed out") {
@@ -298,7 +298,10 @@ func ueOr(v, d int) int {
 
 func c16Scenarios(thorough bool) []vScn {
 	mk := func(name string, opts ExportOptions, body func(w *rqWorld) (updaters, requests []string, wantAfter map[string]string)) vScn {
-		return vScn{name: name, horizon: 2 * time.Hour, build: func() (func(), func(*vsched.Result) (string, []vScnBad)) {
+		// horizon below the 1 h operation timeouts of the environment: only timers a scenario
+		// configures itself (S4: DefaultTimeout 1 s) can fire, at quiescence or early; an
+		// operation timeout is answered JUKEBOX too and would blur the drain clause
+		return vScn{name: name, horizon: 30 * time.Minute, build: func() (func(), func(*vsched.Result) (string, []vScnBad)) {
 			var w *rqWorld
 			var ups, reqs []string
 			var want map[string]string
